@@ -69,7 +69,7 @@ Step == /\ ~dead /\ l <= Len(T.ev)
            \E f \in {IF ev.exc # "" THEN "raised" ELSE FirstFail(Checks(ev), 1)} :
               /\ (IF f = "" THEN TRUE ELSE Report(ev.k \o "." \o f))
               /\ dead' = (f # "")
-        /\ pc' = "done" /\ passes' = (IF mode = "dir" THEN T.ev[l].o.passes ELSE 0) /\ UNCHANGED <<mode, digits>>
+        /\ pc' = "done" /\ passes' = (IF mode = "dir" /\ T.ev[l].exc = "" THEN T.ev[l].o.passes ELSE 0) /\ UNCHANGED <<mode, digits>>
         /\ l' = l + 1 /\ UNCHANGED tid
 TraceSpec == TraceInit /\ [][Step]_tvars
 Consumed == (~dead /\ l = Len(T.ev) + 1) => PrintT(<<"END", tid>>)
